@@ -61,7 +61,7 @@ class AdaptiveBound(object):
 
     def split_full_data(self, data, base_index=None):
         """split structure data, (TODO because large IO,  the method is slow.)"""
-        base_data = [[data_index(data, i) for i in base_index]]
+        base_data = np.stack([data_index(data, i) for i in base_index])
         mask = self.get_bool_mask(base_data)
         ret = []
         for i in mask:
